@@ -96,6 +96,16 @@ CHECKS = {
    text="All histories of length <=3 (thorough 4) over 15 operations + tick for TTL in {0,1s,1h} (12k histories quick): every answer equals the plain planner's. Concurrent: 67 client pairs x 2 TTLs, every schedule with <=1 preemption at client granularity with RWMutex operations visible: every answer equals the plain planner's; no deadlock/fatal.",
    note="Virtual clock (vrt); subscriptions interleaved with queries are covered in the C17/C18 harness only; data races on the shared plan are outside a cooperative scheduler's reach.",
    ref="DESIGN.md §6 C14"),
+ "C17": dict(engine="sched", cat="model_checking",
+   technique="stateless model checking of the implementation: preemption-bounded exhaustive DFS (state-cached) over the real subscription handler, entries and upstream reader running on scheduler-aware pipes, crossed with an exhaustive small scope of subscription operations and upstream event histories",
+   text="For 8 subscription operations (0-2 other services, lists, value types, aliases) x upstream histories of length <=3 over {event, error payload, complete} x 1-2 subscriptions per connection x plain/caching planner, every schedule with <=1 preemption: per subscription id the data payloads equal the reference evaluation of each emitted event, in order, exactly once, never under another id; upstream error payloads arrive as errors; no fatal/deadlock/leak.",
+   note="Virtual time; one connection; schedules beyond the bound not covered.",
+   ref="DESIGN.md §6 C17"),
+ "C18": dict(engine="sched", cat="model_checking",
+   technique="stateless model checking of the implementation: preemption-bounded exhaustive DFS (state-cached) over all goroutines of the real teardown path (handler, heartbeat, Listen, Close, upstream closer and reader) on scheduler-aware pipes, with heartbeat firings as bounded environment moves, crossed with client/upstream action scripts",
+   text="117 (quick) / 680 (thorough) script pairs over 10 client actions and 5 upstream actions; every schedule with <=1 (thorough 2) preemption and <=1 (2) heartbeat firing inside the window opening once the subscription is established: no fatal or panic, no deadlock, handler returns, every goroutine started for the connection terminates, every upstream connection is closed, and the client's byte stream parses into complete websocket frames with complete graphql-ws messages.",
+   note="Virtual time (only orderings of ticker firings); preemption bound; gobwas and encoding/json are not instrumented.",
+   ref="DESIGN.md §6 C18"),
 }
 
 NOT_YET = {}
